@@ -373,4 +373,6 @@ def main(argv):
     a = ap.parse_args(argv)
     sys.path.insert(0, VERIF)
     mod = importlib.import_module('checks.%s' % a.id.lower())
+    if hasattr(mod, 'main'):
+        return mod.main(a.tier)
     return run_check(mod, a.tier, a.update_expected, a.only, a.keep, a.v)
